@@ -7,5 +7,5 @@ CONSTANTS
   MaxTok = 3
   MaxPairTok = 1
   Toks = {"x", "u", "n", "LF", "CR", "CRLF", "SP", "COLON", "DATA", "EV", "ID", "RETRY", "BOM"}
-INVARIANTS WantedOK ImplDev DevSharp NormOK
+INVARIANTS WantedOK ImplOK ImplDev DevSharp NormOK
 CHECK_DEADLOCK FALSE
